@@ -249,7 +249,7 @@ func checkC11(c *runCtx) {
 	c.assume("sequential consistency between scheduling points (every mutex, WaitGroup, channel operation and go statement of agent_handlers.go; handlers contain one more point)",
 		"the task loop is the only enqueuer in the agent, so one enqueuer thread is the faithful driver; a second enqueuer is explored as an extra",
 		"the gathering half of the statement (single nil candidate, ufrag stamping, cancelled cycles) is checked on the gathering model (fake transport.Net) and by the Restart race scenarios")
-	dl := c01deadline(c, 150, 1200)
+	dl := c01deadline(c, 240, 1200)
 	b := 4
 	if !c.quick() {
 		b = 5
